@@ -90,6 +90,8 @@ pub enum Op {
     CaseVariant(u16, u16),
     Duplicate(u16),
     Empty,
+    /// ((inner^k1 tail)^k2 outer)^k3 — nested periods
+    Nested(Word, u8, Word, u8, Word, u8),
 }
 
 #[derive(Clone, Debug)]
@@ -183,6 +185,24 @@ impl Program {
                         .collect()
                 }
                 Op::Duplicate(i) if n > 0 => tcs[idx(*i, n)].clone(),
+                Op::Nested(inner, k1, tail, k2, outer, k3) => {
+                    let (inner, tail, outer) = (word(inner), word(tail), word(outer));
+                    let mut level1 = vec![];
+                    for _ in 0..*k1 {
+                        level1.extend(inner.iter().cloned());
+                    }
+                    level1.extend(tail.iter().cloned());
+                    let mut level2 = vec![];
+                    for _ in 0..*k2 {
+                        level2.extend(level1.iter().cloned());
+                    }
+                    level2.extend(outer.iter().cloned());
+                    let mut b = vec![];
+                    for _ in 0..*k3 {
+                        b.extend(level2.iter().cloned());
+                    }
+                    b
+                }
                 // an op that refers to an earlier case when there is none
                 Op::PrefixOf(..) | Op::Duplicate(..) | Op::CaseVariant(..) | Op::Replace(..) => vec![],
                 Op::Append(_, w) | Op::Prepend(_, w) => word(w),
@@ -268,6 +288,8 @@ fn op_strategy(w: OpWeights, max_rep: u8) -> impl Strategy<Value = Op> {
         w.casevar => (any::<u16>(), any::<u16>()).prop_map(|(i, m)| Op::CaseVariant(i, m)),
         w.dup => any::<u16>().prop_map(Op::Duplicate),
         w.empty => Just(Op::Empty),
+        w.repeat / 2 + 1 => (vec(any::<u16>(), 1..=2), 2u8..=3, vec(any::<u16>(), 0..=2), 2u8..=3, vec(any::<u16>(), 0..=1), 1u8..=2)
+            .prop_map(|(a, k1, b, k2, c, k3)| Op::Nested(a, k1, b, k2, c, k3)),
     ]
 }
 
